@@ -171,7 +171,7 @@ func (c05Checker) Run(tp *Tapes, opt RunOpt) *Outcome {
 	out := &Outcome{}
 	sp := c05Gen(tp)
 	disk := progDisk(sp.Prog)
-	w := NewWorld([]*DiskSpec{disk})
+	w := NewWorld(disk)
 	s := NewSched(tp.Sched, w)
 	s.Strat = sp.strat
 	s.KeepLog = opt.KeepLog
@@ -315,7 +315,7 @@ func (c05Checker) Run(tp *Tapes, opt RunOpt) *Outcome {
 					out.dig(got.String())
 				}
 				// fresh world: new set over the same files, fresh compile, no other task
-				rwld := NewWorld([]*DiskSpec{disk})
+				rwld := NewWorld(disk)
 				SetCurWorld(rwld)
 				for _, f := range op.Plan {
 					f.Task = -1
